@@ -21,7 +21,7 @@ def one(job):
         c.setdefault("post_hooks", [])
     cf = ConfigFile(**c)
     config = Config.from_sources(cf, MetaType(job.get("meta", "none")), Path(job["doc"]), "utf-8", False, output_path=Path(job["out"]))
-    res = {"id": job["id"], "exc": None, "diag": [], "models": [], "endpoints": [], "init": None, "classes": []}
+    res = {"id": job["id"], "exc": None, "diag": [], "models": [], "endpoints": [], "init": None, "classes": [], "enums": []}
     buf = io.StringIO()
     try:
         with contextlib.redirect_stdout(buf):
@@ -47,6 +47,11 @@ def one(job):
             res["models"].append({"module": str(m.class_info.module_name), "cls": str(m.class_info.name),
                                   "lazy": list(m.lazy_imports or []), "relative": list(m.relative_imports or []),
                                   "addl_lazy": list(ap_lazy) if ap_lazy else []})
+        for e in seen_enums:
+            vals = e.values
+            res["enums"].append({"module": str(e.class_info.module_name), "cls": str(e.class_info.name), "kind": type(e).__name__,
+                                 "value_type": getattr(getattr(e, "value_type", None), "__name__", None),
+                                 "members": ([[str(k), v] for k, v in vals.items()] if isinstance(vals, dict) else sorted(map(repr, vals)))})
         from openapi_python_client import utils
         for tag, coll in data.endpoint_collections_by_tag.items():
             for ep in coll.endpoints:
